@@ -26,10 +26,38 @@ func VP_C16_At() {
 			// number of intervals active at once)
 			vpAssume(0 <= starts[x] && starts[x] <= sm)
 			ends[x] = sm + 1 + vpCaseOr("endGap", 0)*x
+			if vpCaseOr("freeEnds", 0) == 1 {
+				// ends symbolic as well, in (start, small+1]: intervals come
+				// and go in every order, so different active sets of the same
+				// size occur in one index
+				ends[x] = vpInt("end" + vpDigit(x))
+				vpAssume(starts[x] < ends[x] && ends[x] <= sm+1)
+			}
 		}
 		if vpCase("exclDegenerate") == 1 {
 			// known-finding class D2: empty or inverted intervals
 			vpAssume(starts[x] < ends[x])
+		}
+	}
+	if g := vpCaseOr("geom", 0); g > 0 && n == 4 {
+		// a fixed geometry - two separate pairs of overlapping intervals -
+		// under every assignment of the four intervals to the indices 0..3
+		// (the query stays symbolic): different active sets of equal size, and
+		// of equal index sum, occur in different pieces of one index
+		gs, ge := []int{0, 5, 20, 25}, []int{10, 15, 30, 35}
+		if g == 2 {
+			gs, ge = []int{0, 2, 4, 30}, []int{40, 6, 8, 34} // nested, then a late one
+		}
+		perm := []int{0, 1, 2, 3}
+		k := vpChoice("perm", 24)
+		for i := 0; i < 3; i++ {
+			f := []int{6, 2, 1}[i]
+			j := i + k/f
+			k %= f
+			perm[i], perm[j] = perm[j], perm[i]
+		}
+		for x := 0; x < 4; x++ {
+			starts[x], ends[x] = gs[perm[x]], ge[perm[x]]
 		}
 	}
 	sc, ec := append([]int(nil), starts...), append([]int(nil), ends...)
